@@ -289,6 +289,7 @@ inductive Built where
   | fail (o : Transport × String)
   | nilp (t : Transport)
   | none
+deriving DecidableEq, Repr
 
 /-- the transports that allocate a new `RawParams` per request -/
 def paramsOf (cfg : Cfg) : Req → Built
